@@ -129,6 +129,7 @@ fn run_with_shutdown(c: &ConnCase, b: &Built, shutdown_at: usize) -> Result<Shut
 }
 
 fn check_shutdown(c: &ConnCase, b: &Built, m: &ConnModel, k: usize) -> Result<(bool, bool), Fail> {
+    heartbeat();
     let ctx = format!("[shutdown requested before poll #{k}]");
     let r = run_with_shutdown(c, b, k).map_err(|f| Fail::new(f.sig, format!("{ctx} {}", f.msg)))?;
     let w = r.world.lock().unwrap();
@@ -218,8 +219,17 @@ fn test_conn(c: &ConnCase) -> TestResult {
 pub enum WOp {
     /// poll the shutdown future; drop these tokens at hook point A (after the liveness check,
     /// before the waker is registered) / B (after registration, before the poll returns)
-    Poll { at_a: Vec<u8>, at_b: Vec<u8> },
+    Poll {
+        at_a: Vec<u8>,
+        at_b: Vec<u8>,
+        /// which of the task's wakers is used for this poll (a task may be polled with
+        /// different wakers over time; only the latest one has to be woken)
+        #[serde(default)]
+        waker: u8,
+    },
     Drop(u8),
+    /// drop the token while its thread is unwinding from a panic (a handler panic)
+    DropInPanic(u8),
 }
 
 #[derive(Clone, Debug, Serialize, Deserialize)]
@@ -241,7 +251,9 @@ fn test_hook(c: &HookCase) -> TestResult {
         }
     }
     let mut fut = Box::pin(runner.shutdown());
-    let flag = FlagWaker::new(false);
+    let flags = [FlagWaker::new(false), FlagWaker::new(false), FlagWaker::new(false)];
+    // waker used by the latest poll
+    let mut cur = 0usize;
     // last poll result: None = never polled, Some(false) = Pending, Some(true) = Ready
     let mut last: Option<bool> = None;
     let mut window_used = false;
@@ -255,25 +267,38 @@ fn test_hook(c: &HookCase) -> TestResult {
         let k = i as usize % g.len();
         g[k].take().is_some()
     };
-    let after = |what: &str, last: Option<bool>, toks: &Rc<RefCell<Vec<Option<Token>>>>| -> Result<(), Fail> {
+    let after = |what: &str, last: Option<bool>, cur: usize, toks: &Rc<RefCell<Vec<Option<Token>>>>| -> Result<(), Fail> {
         if alive(toks) == 0 && last == Some(false) {
-            vensure!(flag.is_woken(), "c14-waiter-not-woken", "{what}: the last token is gone, the shutdown future's latest poll returned Pending, and its waker has not fired since");
+            vensure!(flags[cur].is_woken(), "c14-waiter-not-woken", "{what}: the last token is gone, the shutdown future's latest poll (with waker #{cur}) returned Pending, and that waker has not fired since");
         }
         Ok(())
     };
     let mut ops = c.ops.clone();
-    ops.push(WOp::Poll { at_a: vec![], at_b: vec![] });
+    ops.push(WOp::Poll { at_a: vec![], at_b: vec![], waker: 0 });
     for i in 0..n as u8 {
         ops.push(WOp::Drop(i));
     }
-    ops.push(WOp::Poll { at_a: vec![], at_b: vec![] });
+    ops.push(WOp::Poll { at_a: vec![], at_b: vec![], waker: 0 });
     for (oi, op) in ops.iter().enumerate() {
         let what = format!("op {oi} {op:?}");
         match op {
             WOp::Drop(i) => {
                 drop_tok(&toks, *i);
             },
-            WOp::Poll { at_a, at_b } => {
+            WOp::DropInPanic(i) => {
+                let taken = {
+                    let mut g = toks.borrow_mut();
+                    if g.is_empty() { None } else { let k = *i as usize % g.len(); g[k].take() }
+                };
+                if let Some(tok) = taken {
+                    let r = std::panic::catch_unwind(std::panic::AssertUnwindSafe(move || {
+                        let _held = tok;
+                        panic!("handler panic (deliberate, C14)");
+                    }));
+                    vensure!(r.is_err(), "harness-inconsistent", "deliberate panic did not unwind");
+                }
+            },
+            WOp::Poll { at_a, at_b, waker } => {
                 if last == Some(true) {
                     continue; // a completed future must not be polled again
                 }
@@ -307,8 +332,9 @@ fn test_hook(c: &HookCase) -> TestResult {
                     },
                     _ => {},
                 })));
-                flag.take();
-                let waker = Waker::from(flag.clone());
+                cur = *waker as usize % flags.len();
+                flags[cur].take();
+                let waker = Waker::from(flags[cur].clone());
                 let mut cx = Context::from_waker(&waker);
                 let ready = fut.as_mut().poll(&mut cx).is_ready();
                 fastcgi_server::verif_hooks::set(None);
@@ -327,7 +353,7 @@ fn test_hook(c: &HookCase) -> TestResult {
                 last = Some(ready);
             },
         }
-        after(&what, last, &toks)?;
+        after(&what, last, cur, &toks)?;
     }
     vensure!(last == Some(true), "c14-future-pending-without-tokens", "the shutdown future never completed although every token was dropped");
     Ok(Outcome::new(last_drop_in_window)
@@ -470,8 +496,9 @@ fn test_multi(c: &Multi) -> TestResult {
 
 fn wop() -> BoxedStrategy<WOp> {
     prop_oneof![
-        3 => (proptest::collection::vec(0u8..4, 0..4), proptest::collection::vec(0u8..4, 0..4)).prop_map(|(at_a, at_b)| WOp::Poll { at_a, at_b }),
+        4 => (proptest::collection::vec(0u8..4, 0..4), proptest::collection::vec(0u8..4, 0..4), prop_oneof![3 => Just(0u8), 2 => Just(1u8), 1 => Just(2u8)]).prop_map(|(at_a, at_b, waker)| WOp::Poll { at_a, at_b, waker }),
         2 => (0u8..4).prop_map(WOp::Drop),
+        1 => (0u8..4).prop_map(WOp::DropInPanic),
     ]
     .boxed()
 }
